@@ -184,8 +184,12 @@ error under concurrent Compile is C05's), {nundet} are **not detected** because
 they need an instance beyond every explored bound (listed in §8a below) and
 {noutside} changes behaviour that no listed property fixes. {nmissed} of
 them were **missed at first** and led to the strengthening listed below;
-{ndropped} first-round changes were dropped because the repairs of §11.3 made them
-harmless or inapplicable.
+{ndropped} changes were dropped because repairs of §11.3 made them harmless or
+inapplicable (e.g. three changes that removed a cursor save/restore around an
+operand became no-ops once the merged step restores the cursor itself, fix
+b2bf495: their own demonstration tests pass on the repaired tree). After the
+last repair every kept change was applied again to the repaired tree in a
+sandbox copy and its property's quick check re-run (`tools/seed_regress_sandbox.sh`).
 
 | id | what it breaks (author's words, shortened) | result | first violation signature |
 |---|---|---|---|
